@@ -147,7 +147,9 @@ class BitStringBitReader(BitReader):
         return self._bit_stream_read(fmt_string)
 
     def read_bool(self):
-        return self._bit_stream_read('bool')
+        # Reading 'bool' at the end of the stream makes bitstring raise a plain
+        # ValueError instead of its ReadError; a one-bit uint read does not.
+        return self._bit_stream_read('uint:1') == 1
 
     def read_bin(self, nbits):
         return self._bit_stream_read('bin:{}'.format(nbits))
